@@ -10,6 +10,7 @@ import FeatModel.Lemmas.C02Alias
 import FeatModel.Lemmas.C02BcsrPerm
 import FeatModel.Lemmas.C02Rebuild
 import FeatModel.Lemmas.C02Round
+import FeatModel.Lemmas.C02XClone
 /-!
 # C02 — conversion, cloning, transposition and permutation preserve the matrix (property theorems)
 
@@ -290,6 +291,50 @@ theorem C02.roundDt_probes :
 theorem C02.transposeInplace_eq {α : Type} [Zero α] (round : α → α) (m : Mat α) (hv : m.valid = true) (t : Mat α)
     (s : Option (Mat α)) (h : m.stepX round .triDense = .ok t s) : m.step .tri = .ok t ∧ s = none :=
   C02L.stepX_triDense_eq round m hv t s h
+
+/-! ### cross-type clones `X<DT,IT>::clone(const X<DT2,IT2>&, mode)` = `t.assign(other); clone(t, mode)` -/
+
+/-- THE SHARING TABLE of the cross-type clone for every clone mode and type combination (`dDiff` / `iDiff` = data /
+    index type of source and target differ; `assign` shares arrays of unchanged type and converts the others):
+    the value arrays are the source's iff `shallow` and the same data type, otherwise all fresh;
+    the index arrays are the source's iff `shallow | layout | weak` and the same index type, otherwise all fresh -/
+theorem C02.xclone_sharing_table {α : Type} (f : α → α) (h : Heap α) (c : Handle) (dDiff iDiff : Bool) (m : CloneMode) :
+    ((m = .shallow ∧ dDiff = false → (h.xclone f c dDiff iDiff m).2.vals = c.vals) ∧
+     (¬ (m = .shallow ∧ dDiff = false) → ∀ id ∈ (h.xclone f c dDiff iDiff m).2.vals, h.vals.size ≤ id)) ∧
+    (((m = .shallow ∨ m = .layout ∨ m = .weak) ∧ iDiff = false → (h.xclone f c dDiff iDiff m).2.idxs = c.idxs) ∧
+     (¬ ((m = .shallow ∨ m = .layout ∨ m = .weak) ∧ iDiff = false) →
+       ∀ id ∈ (h.xclone f c dDiff iDiff m).2.idxs, h.idxs.size ≤ id)) :=
+  ⟨C02L.xclone_vals_table f h c dDiff iDiff m, C02L.xclone_idxs_table f h c dDiff iDiff m⟩
+
+/-- weak, deep, allocate (and layout) cross-type clones are value-independent of their source for EVERY type
+    combination — in particular when only the index type differs and `assign` shares the value array with the source;
+    so is a shallow one when the data type differs: a write through either container is invisible through the other -/
+theorem C02.xclone_independent {α : Type} (f : α → α) (h : Heap α) (c : Handle) (hok : C02L.Handle.okIn c h)
+    (dDiff iDiff : Bool) (m : CloneMode) (hne : ¬ (m = .shallow ∧ dDiff = false)) (k k' : Nat) (v dflt : α) :
+    ((h.xclone f c dDiff iDiff m).1.write c k v).read (h.xclone f c dDiff iDiff m).2 k' dflt
+      = (h.xclone f c dDiff iDiff m).1.read (h.xclone f c dDiff iDiff m).2 k' dflt ∧
+    ((h.xclone f c dDiff iDiff m).1.write (h.xclone f c dDiff iDiff m).2 k v).read c k' dflt
+      = (h.xclone f c dDiff iDiff m).1.read c k' dflt :=
+  C02L.xclone_independent f h c hok dDiff iDiff m hne k k' v dflt
+
+/-- a shallow cross-type clone with the same data type aliases the source's values, whatever the index type -/
+theorem C02.xclone_shallow_alias {α : Type} (f : α → α) (h : Heap α) (c : Handle) (hok : C02L.Handle.okIn c h)
+    (iDiff : Bool) (k : Nat) (v dflt : α) (hk : k < h.valSize c) :
+    ((h.xclone f c false iDiff .shallow).1.write c k v).read (h.xclone f c false iDiff .shallow).2 k dflt = v ∧
+    ((h.xclone f c false iDiff .shallow).1.write (h.xclone f c false iDiff .shallow).2 k v).read c k dflt = v :=
+  C02L.xclone_shallow_alias f h c hok false iDiff rfl k v dflt hk
+
+/-- content: the clone reads the (converted) source, the source is unchanged, and the result handle is valid again
+    (so the three theorems above compose along a chain u64 -> u32 -> u64) -/
+theorem C02.xclone_content {α : Type} (f : α → α) (h : Heap α) (c : Handle) (hok : C02L.Handle.okIn c h)
+    (dDiff iDiff : Bool) (m : CloneMode) (k : Nat) (dflt : α) (hk : k < h.valSize c) :
+    (h.xclone f c dDiff iDiff m).1.read (h.xclone f c dDiff iDiff m).2 k dflt
+      = (if dDiff then f (h.read c k dflt) else h.read c k dflt) ∧
+    (h.xclone f c dDiff iDiff m).1.read c k dflt = h.read c k dflt ∧
+    C02L.Handle.okIn (h.xclone f c dDiff iDiff m).2 (h.xclone f c dDiff iDiff m).1 ∧
+    C02L.Handle.okIn c (h.xclone f c dDiff iDiff m).1 :=
+  ⟨C02L.xclone_reads f h c hok dDiff iDiff m k dflt hk, C02L.xclone_source_unchanged f h c hok dDiff iDiff m k dflt,
+   C02L.xclone_okIn f h c hok dDiff iDiff m⟩
 
 /-!
 ### Covered by the correspondence run only (no theorem here)
